@@ -47,6 +47,9 @@ def program_slices(tier):
     sl.append(("E5", sc(["enum"], reprs, [[], ["rename_all", "rename_all_fields"], ["rename_all_kebab", "rename"]], [], ["struct2", "newtype", "unit"], vpairs,
                         ["opt_i32", "inner"] if q else ["opt_i32", "inner", "tage"], [[], ["rename"], ["inline"]], tys2=("string",))))
     # both fields of a tuple / struct variant (and of a tuple struct) skipped or not
+    # names with a double quote and a backslash in them, at every place a variant name / field name is written
+    sl.append(("E7", sc(["enum"], reprs, [[], ["rename_all"]], [], ["unit", "newtype", "struct1", "tuple"], [["rename_q"]], ["i32", "inner"], [[], ["rename_q"]])))
+    sl.append(("S5", sc(["struct"], [], [[], ["tag"], ["rename_all_kebab"]], ["named"], [], [], ["i32", "opt_i32"], [["rename_q"]], tys2=("string",))))
     sl.append(("E6", sc(["enum"], reprs, [[]], [], ["tuple", "struct2", "newtype"], [[], ["untagged"]], ["i32", "inner"], [[], ["skip"]],
                         tys2=("string",), fattrsets2=([], ["skip"]))))
     sl.append(("S4", sc(["struct"], [], [[], ["rename"]], ["tuple", "named"], [], [], ["i32", "inner"], [[], ["skip"]], tys2=("string",), fattrsets2=([], ["skip"]))))
